@@ -25,6 +25,10 @@ impl Key {
     pub fn new(name: &str) -> Option<Self> {
         let name = name.trim();
         let ident_repr = name.replace('-', "_");
+        // raw identifiers (`r#fn`) parse as an `Ident`, but can't be used to build the generated identifiers.
+        if ident_repr.starts_with("r#") {
+            return None;
+        }
         let ident = syn::parse_str::<syn::Ident>(&ident_repr).ok()?;
         Some(Key {
             name: Rc::from(name),
